@@ -57,6 +57,10 @@ class ConstraintUniqueVecModel(ConstraintModel):
                 else:
                     and_e = btor.And(and_e, v_ne)
 
+        if and_e is None:
+            # Empty vectors are equal to each other
+            and_e = btor.Const(0, 1)
+
         return and_e
     
     def _mkVecNotEq(self, btor, v1, v2):
